@@ -436,8 +436,14 @@ func genC13Case(rt *rapid.T, thorough bool) *c13Case {
 	}
 	// the two 16 MiB families cost seconds each (the engine re-parses its buffer per
 	// segment): the quick tier runs one fixed instance of each plus a few drawn ones
-	if !thorough && (c.Family == "incomplete" || c.Family == "large-legal") && rapid.IntRange(0, 4).Draw(rt, "skipHeavy") > 0 {
-		c.Family = "blob-server"
+	if c.Family == "incomplete" || c.Family == "large-legal" {
+		keepOneIn := 5
+		if thorough {
+			keepOneIn = 3
+		}
+		if rapid.IntRange(0, keepOneIn-1).Draw(rt, "skipHeavy") > 0 {
+			c.Family = "blob-server"
+		}
 	}
 	c.Plan, c.plan = genPlan(rt, "lib")
 	oversize := rapid.IntRange(0, 9).Draw(rt, "oversize") < 3
